@@ -42,7 +42,7 @@ are issued only from persistent objects (a lazy load on a *pending*
 object does not autoflush by design); all selects carry a total ORDER BY; histories whose
 flush fails (e.g. the unique one-to-one FK) are held when both twins raise.
 
-Fires on the unchanged tree (candidate genuine defect, proposed patch in
+Fired on the unchanged tree when written (fixed in /repo by 3c7bb33; proposed patch in
 selftest/C47/proposed_fixes): ``pending-delete-survives-flush:deleted-object-also-attached-to-parent``
 - an object that is marked deleted (``Session.delete`` or a delete cascade) and, in the
 same unit of work, attached to a parent (many-to-one set / collection append) has its
